@@ -6,7 +6,10 @@ spec -> impl   TLC explores spec/MC_Cli.tla (intended design of spec/Cli.tla: ev
                with the REAL `llw` binary (built from common.REPO's working tree) in a fresh
                scratch directory laid out as the abstract pre-state says, with several concrete
                grammar texts per verdict class; names + bytes + mtimes are snapshotted before and
-               after every invocation.
+               after every invocation.  Process creation is the bottleneck here (~100 exec/s in
+               total), so the bulk runs through lelwel::compile in a driver process
+               (p6_driver.rs) and a covering subset (binary_subset) through the binary as
+               well; the two routes must agree.
 impl -> spec   every recorded real transition (abstract pre-state by projection of the real
                snapshot, flags, observed {exit, files written, error reported}, projected
                post-state) is written as ndjson and judged by TLC with spec/Trace_Cli.tla against
@@ -109,6 +112,7 @@ def observed_class(stderr):
 # ----------------------------------------------------------------------------------------------
 
 _llw = None
+_drv = None
 
 
 def llw_target_dir():
@@ -118,28 +122,49 @@ def llw_target_dir():
 
 
 def build_llw():
-    """cargo build of llw from common.REPO's current working tree; a copy of the binary is used."""
-    global _llw
+    """cargo build of llw (and of the in-process driver, lib/p6_driver.rs) from common.REPO's
+    current working tree; copies of the binaries are used."""
+    global _llw, _drv
     if _llw:
         return _llw
     tdir = llw_target_dir()
     env = dict(os.environ, CARGO_TARGET_DIR=tdir, CARGO_NET_OFFLINE="true")
+    env.pop("RUSTFLAGS", None)
     t0 = time.time()
     r = subprocess.run(["cargo", "build", "--offline", "--features", "cli", "--bin", "llw"], cwd=REPO,
                        env=env, stdout=subprocess.PIPE, stderr=subprocess.STDOUT, text=True)
     if r.returncode != 0:
         sys.stderr.write(r.stdout[-6000:])
         raise ToolError("cargo build of llw failed in %s" % REPO)
-    src = os.path.join(tdir, "debug", "llw")
+    # the driver: a generated one-file package with a path dependency on REPO, same target directory
+    pk = os.path.join(tdir, "p6drv-pkg")
+    os.makedirs(os.path.join(pk, "src"), exist_ok=True)
+    toml = ('[package]\nname = "p6drv"\nversion = "0.1.0"\nedition = "2024"\n\n[workspace]\n\n'
+            '[dependencies]\nlelwel = { path = "%s", features = ["cli"] }\n' % os.path.realpath(REPO))
+    for p, txt in ((os.path.join(pk, "Cargo.toml"), toml),
+                   (os.path.join(pk, "src", "main.rs"), open(os.path.join(VERIF, "lib", "p6_driver.rs")).read())):
+        if not os.path.exists(p) or open(p).read() != txt:
+            with open(p, "w") as fh:
+                fh.write(txt)
+    if not os.path.exists(os.path.join(pk, "Cargo.lock")):
+        shutil.copy(os.path.join(REPO, "Cargo.lock"), os.path.join(pk, "Cargo.lock"))
+    r = subprocess.run(["cargo", "build", "--offline"], cwd=pk, env=env, stdout=subprocess.PIPE,
+                       stderr=subprocess.STDOUT, text=True)
+    if r.returncode != 0:
+        sys.stderr.write(r.stdout[-6000:])
+        raise ToolError("cargo build of the in-process driver failed")
     d = cache_dir("p6", "bin")
-    dst = os.path.join(d, "llw")
-    tmp = dst + ".%d" % os.getpid()
-    shutil.copy2(src, tmp)
-    os.chmod(tmp, 0o755)
-    os.replace(tmp, dst)
-    log("llw built from %s in %.1fs" % (REPO, time.time() - t0))
-    _llw = dst
-    return dst
+    outs = []
+    for name in ("llw", "p6drv"):
+        dst = os.path.join(d, name)
+        tmp = dst + ".%d" % os.getpid()
+        shutil.copy2(os.path.join(tdir, "debug", name), tmp)
+        os.chmod(tmp, 0o755)
+        os.replace(tmp, dst)
+        outs.append(dst)
+    log("llw and driver built from %s in %.1fs" % (REPO, time.time() - t0))
+    _llw, _drv = outs
+    return _llw
 
 
 RUN_ENV = {"NO_COLOR": "1", "TERM": "dumb", "RUST_BACKTRACE": "0", "PATH": "/usr/bin:/bin", "LC_ALL": "C"}
@@ -152,6 +177,42 @@ def run_llw(args, cwd, as_nobody=False, timeout=60):
     r = subprocess.run([_llw] + args, cwd=cwd, env=RUN_ENV, stdin=subprocess.DEVNULL,
                        stdout=subprocess.DEVNULL, stderr=subprocess.PIPE, timeout=timeout, **kw)
     return r.returncode, r.stderr.decode("utf-8", "replace")
+
+
+_drivers = {}        # per worker process: as_nobody -> Popen of the in-process driver
+
+
+def driver(as_nobody):
+    p = _drivers.get(as_nobody)
+    if p is None or p.poll() is not None:
+        kw = {"user": NOBODY, "group": NOBODY, "extra_groups": []} if as_nobody else {}
+        p = subprocess.Popen([_drv], cwd="/", env=RUN_ENV, stdin=subprocess.PIPE, stdout=subprocess.DEVNULL,
+                             stderr=subprocess.PIPE, **kw)
+        _drivers[as_nobody] = p
+    return p
+
+
+def run_compile(fl, L):
+    """The same invocation through lelwel::compile in the driver process (see p6_driver.rs)."""
+    p = driver(L["nobody"])
+    line = "\t".join([L["cwd"], L["input"], L["outarg"] if fl["out"] else ".", str(int(fl["check"])),
+                      str(int(fl["format"])), str(fl["verbose"]), str(int(fl["graph"])), str(int(fl["short"]))])
+    p.stdin.write(line.encode() + b"\n")
+    p.stdin.flush()
+    out = []
+    while True:
+        l = p.stderr.readline()
+        if not l:
+            p.wait()
+            _drivers.pop(L["nobody"], None)
+            return -abs(p.returncode or 1), b"".join(out).decode("utf-8", "replace") + "\n[driver process died]"
+        if l.startswith(b"@@END "):
+            code = int(l[6:])
+            break
+        out.append(l)
+    if code >= 250:
+        raise ToolError("driver protocol error %d for %s" % (code, line))
+    return code, b"".join(out).decode("utf-8", "replace")
 
 
 # ----------------------------------------------------------------------------------------------
@@ -531,7 +592,7 @@ def violation_key(clause, rec):
 # replay of one TLC transition (with its witness history) into the real binary
 # ----------------------------------------------------------------------------------------------
 
-def run_steps(L, steps, inst, k0=0, verbose=False):
+def run_steps(L, steps, inst, k0=0, verbose=False, via="bin"):
     """Runs the invocations `steps` (flag records) in a row in the tree L; one real transition
     record per invocation."""
     root = L["root"]
@@ -540,7 +601,10 @@ def run_steps(L, steps, inst, k0=0, verbose=False):
         age(root)
         before = snapshot(root)
         args = argv_of(fl, L)
-        code, err = run_llw(args, L["cwd"], as_nobody=L["nobody"])
+        if via == "bin":
+            code, err = run_llw(args, L["cwd"], as_nobody=L["nobody"])
+        else:
+            code, err = run_compile(fl, L)
         after = snapshot(root)
         ch = changed_paths(before, after)
         wrote = sorted({L["roles"].get(p, "other") for p, how in ch})
@@ -548,7 +612,7 @@ def run_steps(L, steps, inst, k0=0, verbose=False):
                "res": {"exit": code, "wrote": wrote, "err": bool(ERR_RE.search(err))},
                "post": project(after, L, inst),
                "panic": "panicked at" in err,
-               "argv": "llw " + " ".join(args), "cwd": os.path.relpath(L["cwd"], root),
+               "via": via, "argv": "llw " + " ".join(args), "cwd": os.path.relpath(L["cwd"], root),
                "changed": ["%s: %s" % c for c in ch], "stderr": err[:400], "k": k0 + k}
         if verbose:
             rec["before"] = listing(before)
@@ -619,20 +683,83 @@ def make_groups(trs, pools, mechs, K0, K1, rng_seed):
 _RUNS = None
 
 
+def binary_subset(dgroups, tier):
+    """The work units that are ALSO run with the real llw binary (instantiation 0 of the unit).
+    thorough: every first-invocation transition and 12 of the 96 second invocations of every witness
+    history.  quick (process creation costs 10..250 ms here, depending
+    on the load of the machine): every second cell of the first-invocation table
+    (initial directory x check x format x graph x -o) with the two rendering flags (-v/-vv, -s)
+    rotating over their 6 values, and one of the 96 second invocations of every witness history."""
+    out = []
+    combos = {}
+    for g in dgroups:
+        if not g["gid"].endswith("_0"):
+            continue
+        finals = g["finals"]
+        if tier != "quick":
+            if g["prefix"]:
+                gi = int(g["gid"].split("_")[0])
+                finals = [f for n, f in enumerate(finals) if n % 8 == gi % 8]
+        else:
+            if not g["prefix"]:
+                fl = finals[0][1]
+                key = json.dumps([g["init"], fl["check"], fl["format"], fl["graph"], fl["out"]], sort_keys=True)
+                idx = combos.setdefault(key, len(combos))
+                if fl["verbose"] * 2 + int(fl["short"]) != (idx // 2) % 6 or idx % 2:
+                    continue
+            else:
+                gi = int(g["gid"].split("_")[0])
+                finals = [f for n, f in enumerate(finals) if n == (gi * 7) % 96]
+        out.append(dict(g, gid="b" + g["gid"], finals=finals, via="bin"))
+    return out
+
+
+def _run_batch(grps):
+    t = time.time()
+    out = [_run_group(g) for g in grps]
+    return out, time.time() - t
+
+
+def _noop(x):
+    return x
+
+
+def make_pool():
+    """Worker PROCESSES (the snapshot/projection work is Python and would serialise on the GIL).
+    Forked early, while this process is still small; they inherit _llw and _RUNS."""
+    import multiprocessing
+    from concurrent.futures import ProcessPoolExecutor
+    n = max(1, min(12, NCPU - 2))
+    pool = ProcessPoolExecutor(max_workers=n, mp_context=multiprocessing.get_context("fork"))
+    list(pool.map(_noop, range(4 * n)))
+    return pool
+
+
+def keep_cache_alive():
+    """Concurrent checks prune old build/cache/<tree hash> directories by mtime."""
+    try:
+        os.utime(os.path.join(BUILD, "cache", tree_hash()))
+    except OSError:
+        pass
+
+
 def _run_group(grp):
     """Returns [(j or None, record)]: the records of the shared first invocations carry j = None."""
-    base = os.path.join(_RUNS, grp["gid"])
+    keep_cache_alive()
+    # one parent directory per worker process: mkdir/rmdir in a shared parent serialise
+    base = os.path.join(_RUNS, "w%d" % os.getpid(), grp["gid"])
     if os.path.exists(base):
         unprotect(base)
     out = []
     try:
         L = materialize(os.path.join(base, "t"), grp["init"], grp["inst"])
-        for rec in run_steps(L, grp["prefix"], grp["inst"]):
+        via = grp.get("via", "bin")
+        for rec in run_steps(L, grp["prefix"], grp["inst"], via=via):
             out.append((None, rec))
         n = len(grp["finals"])
         for i, (j, fl) in enumerate(grp["finals"]):
             Lk = L if i == n - 1 else clone(L, os.path.join(base, "c%d" % i), grp["init"], grp["inst"])
-            out.append((j, run_steps(Lk, [fl], grp["inst"], k0=len(grp["prefix"]))[0]))
+            out.append((j, run_steps(Lk, [fl], grp["inst"], k0=len(grp["prefix"]), via=via)[0]))
             if Lk is not L:
                 unprotect(Lk["root"])
     finally:
@@ -651,7 +778,7 @@ def trace_record(rec, rid):
 def tlc_judge(records, tag, tier):
     """TLC (Trace_Cli.tla) judges the real transitions; returns (set of (id, clause), drift dict)."""
     d = cache_dir("p6", "trace")
-    shard = 25000
+    shard = 12000
     jobs = []
     for k in range(0, len(records), shard):
         p = os.path.join(d, "trace-%s-%d-%d.ndjson" % (tag, os.getpid(), k // shard))
@@ -708,6 +835,8 @@ def judge(prop, tier):
     rep = Report(prop, tier, "model_checking")
     build_llw()
     t0 = time.time()
+    _RUNS = cache_dir("p6", "runs-%s-%d" % (tier, os.getpid()))
+    pool = make_pool()
     # (b) the model: intended design, exhaustive
     mc = run_tlc("MC_Cli", "MC_Cli.cfg", env={"CLI_EMIT": "1"}, workers=1, timeout=900, job="p6-mc-%d" % os.getpid())
     if not mc.ok:
@@ -727,21 +856,69 @@ def judge(prop, tier):
     mechs = ro_mechanisms()
     if tier == "quick":
         mechs = mechs[:1]
-    K0, K1 = (2, 1) if tier == "quick" else (6, 3)
-    groups, skipped_ro = make_groups(trs, pools, mechs, K0, K1, seed())
-    groups.sort(key=lambda g: -len(g["finals"]))        # long units first
-    _RUNS = cache_dir("p6", "runs-%s-%d" % (tier, os.getpid()))
-    # (c) replay
+    K0, K1 = (1, 1) if tier == "quick" else (6, 3)
+    dgroups, skipped_ro = make_groups(trs, pools, mechs, K0, K1, seed())
+    for g in dgroups:
+        g["via"] = "drv"
+    bgroups = binary_subset(dgroups, tier)
+    groups = bgroups + dgroups
+    # (c) replay.  Tasks: one per long unit, batches of 16 single-invocation units; the binary's tasks
+    # are spread evenly among the driver's (process creation does not scale with the number of workers)
     t1 = time.time()
-    results = parallel(_run_group, groups)
+
+    def tasks_of(idxs):
+        long_ = [[i] for i in idxs if groups[i]["prefix"]]
+        single = [i for i in idxs if not groups[i]["prefix"]]
+        return long_ + [single[k:k + 16] for k in range(0, len(single), 16)]
+    bt = tasks_of(range(len(bgroups)))
+    dt_ = tasks_of(range(len(bgroups), len(groups)))
+    order, bi = [], 0
+    for n, t in enumerate(dt_):
+        order.append(t)
+        while bi < len(bt) and bi * len(dt_) <= n * len(bt):
+            order.append(bt[bi])
+            bi += 1
+    order += bt[bi:]
+    results = [None] * len(groups)
+    try:
+        futs = [(t, pool.submit(_run_batch, [groups[i] for i in t])) for t in order]
+        busy = collections.Counter()
+        for t, f in futs:
+            rs, secs = f.result()
+            busy[groups[t[0]]["via"]] += secs
+            for i, r in zip(t, rs):
+                results[i] = r
+    finally:
+        pool.shutdown()
     replay_wall = time.time() - t1
     shutil.rmtree(_RUNS, ignore_errors=True)
-    log("replayed %d work units (%d invocations) in %.1fs" % (len(groups), sum(len(r) for r in results), replay_wall))
+    log("replayed %d work units (%d invocations, %d of them with the llw binary) in %.1fs" %
+        (len(groups), sum(len(r) for r in results),
+         sum(len(r) for g, r in zip(groups, results) if g["via"] == "bin"), replay_wall))
+    # the in-process driver must be indistinguishable from the binary on the cases run with both
+    dmap = {}
+    for g, recs in zip(groups, results):
+        if g["via"] == "drv":
+            for n, (j, rec) in enumerate(recs):
+                dmap[(g["gid"], j if j is not None else "p%d" % n)] = rec
+    compared, mism = 0, []
+    for g, recs in zip(groups, results):
+        if g["via"] == "bin":
+            for n, (j, rec) in enumerate(recs):
+                d = dmap[(g["gid"][1:], j if j is not None else "p%d" % n)]
+                compared += 1
+                if any(rec[x] != d[x] for x in ("pre", "res", "post", "changed")):
+                    mism.append({"argv": rec["argv"], "grammar": g["inst"]["grammar"]["name"], "binary": rec["res"],
+                                 "driver": d["res"], "binary_changed": rec["changed"], "driver_changed": d["changed"],
+                                 "binary_stderr": rec["stderr"][:200], "driver_stderr": d["stderr"][:200]})
+    if mism:
+        raise ToolError("the in-process driver and the llw binary disagree on %d of %d cases, e.g. %s" %
+                        (len(mism), compared, json.dumps(mism[:2])))
 
     # real transitions, spec -> impl comparison
     real = []          # flat list of records; id = index
     origin = []        # (group index, steps of the history up to and including this invocation)
-    py_drift = 0
+    py_drift = set()
     pre_mismatch = 0
     replayed_js = set()
     for gi, (grp, recs) in enumerate(zip(groups, results)):
@@ -761,7 +938,7 @@ def judge(prop, tier):
                 pre_mismatch += 1
             elif rec["res"]["exit"] != eres["exit"] or set(rec["res"]["wrote"]) != set(eres["wrote"]) or \
                     rec["res"]["err"] != eres["err"] or (epost is not None and rec["post"] != epost):
-                py_drift += 1
+                py_drift.add(len(real) - 1)
     if len(replayed_js) + skipped_ro != len(trs):
         raise ToolError("only %d of %d abstract transitions were replayed" % (len(replayed_js), len(trs)))
     # (d) + (f): TLC judges the real transitions; one corrupted record must be rejected
@@ -795,13 +972,14 @@ def judge(prop, tier):
     for i, cl in sorted(bad):
         by_key.setdefault(violation_key(cl, real[i]), []).append((i, cl))
     for key, hits in by_key.items():
-        i, cl = hits[0]
+        i, cl = min(hits, key=lambda h: (real[h[0]]["via"] != "bin", h[0]))
         gi, steps = origin[i]
         grp = groups[gi]
         rec = real[i]
-        desc = ("%s fails on the real binary: `%s` (cwd %s; class %s, grammar %s, invocation %d of a history of %d) "
+        desc = ("%s fails on the real code (%s): `%s` (cwd %s; class %s, grammar %s, invocation %d of a history of %d) "
                 "exit=%d error_reported=%s changed=[%s]; %d transitions with this key" %
-                (cl, rec["argv"], rec["cwd"], rec["pre"]["gclass"], grp["inst"]["grammar"]["name"], len(steps),
+                (cl, "llw binary" if rec["via"] == "bin" else "lelwel::compile in process", rec["argv"], rec["cwd"],
+                 rec["pre"]["gclass"], grp["inst"]["grammar"]["name"], len(steps),
                  len(steps), rec["res"]["exit"], rec["res"]["err"], "; ".join(rec["changed"]), len(hits)))
         rep.violation(key, desc, {"property": prop, "key": key, "clause": cl, "init": grp["init"],
                                   "steps": steps, "failing_step": len(steps) - 1, "inst": grp["inst"],
@@ -848,6 +1026,9 @@ def judge(prop, tier):
         "abstract_histories_len2": sum(1 for t in trs if t["h"]),
         "traces_validated_against_impl": judged,
         "evaluations": len(real),
+        "evaluations_by_route": dict(collections.Counter(
+            "llw binary" if r["via"] == "bin" else "lelwel::compile in the driver process" for r in real)),
+        "driver_vs_binary": {"cases_run_with_both": compared, "disagreements": len(mism)},
         "abstract_transitions_replayed": len(replayed_js),
         "work_units": len(groups),
         "distinct_abstract_cases": len(abstract_cases),
@@ -863,7 +1044,7 @@ def judge(prop, tier):
         "concrete_per_transition": {"first_invocation": K0, "second_invocation": K1},
         "concrete_grammars_used": {"%s/%s" % k: v for k, v in sorted(used.items())},
         "model_drift": {"tlc_drift_lines_without_contract_failure": len(drift_only),
-                        "python_spec_vs_real_mismatches": py_drift, "pre_state_mismatches": pre_mismatch,
+                        "python_spec_vs_real_mismatches_without_contract_failure": len(py_drift - bad_ids), "pre_state_mismatches": pre_mismatch,
                         "groups": dict(drift_groups), "examples": drift_examples},
         "contract_failures": {k: len(v) for k, v in by_key.items()},
         "binding_selftest": selftest,
@@ -875,7 +1056,8 @@ def judge(prop, tier):
                    "grammar_classes": 5, "unreadable_variants": len(pools["unreadable"]),
                    "layouts": ["split (cwd, grammar dir, output dir all different)", "same (cwd = grammar dir)"],
                    "paths": ["relative", "absolute"]},
-        "wall": {"tlc_model_s": round(mc.wall, 1), "replay_s": round(replay_wall, 1), "tlc_trace_s": round(trace_wall, 1),
+        "wall": {"tlc_model_s": round(mc.wall, 1), "replay_s": round(replay_wall, 1),
+                 "replay_worker_busy_s": {"llw binary": round(busy["bin"], 1), "driver": round(busy["drv"], 1)}, "tlc_trace_s": round(trace_wall, 1),
                  "total_s": round(time.time() - t0, 1)},
     }
     rep.assumptions = [
@@ -886,6 +1068,9 @@ def judge(prop, tier):
         "(C12/C13 are responsible for the front end); llw never changes the class of a grammar (checked: PFrame)",
         "read-only output directory: chmod 0555 with the invocation running as uid 65534 when the check runs as "
         "root, or an output path below a regular file / a missing directory",
+        "most transitions are replayed by calling lelwel::compile in a driver process (lib/p6_driver.rs) that maps "
+        "the result to an exit status like src/bin/llw.rs; a covering subset (thorough: every first-invocation transition) is "
+        "run with the real llw binary too and both routes must agree on every such case (driver_vs_binary)",
         "TLC, the CommunityModules Json reader and the debug build of llw (cargo build --features cli) are trusted",
     ]
     return rep
